@@ -11,9 +11,10 @@ from __future__ import annotations
 import random
 
 from common import HarnessError, impl, impl_site
-from gen import nontrivial, signature
+from gen import has_log, nontrivial, signature
 from pipeline import compare_value_arrays, explicit_case, impl_solve, materialise_case, model_solve
 
+CANARY = True
 RULE = (
     "cases = generated dyadic model specifications (gen.py grammar: 1-4 periods, 0-2 continuous and 0-3 discrete "
     "states, 0-2 continuous and 0-2 discrete choices, filters incl. period-dependent ones, binding constraints, "
@@ -26,7 +27,7 @@ ASSUMPTIONS = [
     "dyadic inputs: implementation float arithmetic is exact, comparison is equality of rationals",
 ]
 
-FORCES = [None, ["f1two"], ["stoch3"], ["stoch3", "eqsize"], ["stoch", "eqsize", "filter"], ["ninf"], ["f1"], ["mixed"], ["stoch"], ["filter"], ["constraint"], ["cont2"], ["aux"], ["nofilter"], ["f1", "stoch"], ["filter", "constraint"], None]
+FORCES = [None, ["log"], ["log", "filter"], ["f1two"], ["stoch3"], ["stoch3", "eqsize"], ["stoch", "eqsize", "filter"], ["ninf"], ["f1"], ["mixed"], ["stoch"], ["filter"], ["constraint"], ["cont2"], ["aux"], ["nofilter"], ["f1", "stoch"], ["filter", "constraint"], None]
 
 
 def cases(seed, tier):
@@ -57,7 +58,9 @@ def run_case(case):
             out["violations"].append({"clause": "solve runs on a supported specification", "detail": f"{impl_site(e)}: {str(e)[:300]}",
                                       "key": f"raise:{impl_site(e)}", "shrink_case": explicit_case(mj, [P], jit=jit)})
             break
-        diffs, st = compare_value_arrays(Vi, Vm, mj["n_periods"])
+        tol = 1e-9 if has_log(mj) else None
+        diffs, st = compare_value_arrays(Vi, Vm, mj["n_periods"], tol)
+        h[f"log_grids={has_log(mj)}"] = 1
         out["evals"] += st["entries"]
         h["periods_skipped_unsupported"] = h.get("periods_skipped_unsupported", 0) + st["periods_skipped"]
         h["ninf_entries"] = h.get("ninf_entries", 0) + st["ninf"]
